@@ -41,6 +41,67 @@ def cmp_node(n):
     return (show(l), op["variant"], r["variant"], show(r["fields"][0]["e"]) if r["fields"] else "")
 
 
+def sequence_is_or(pi):
+    """parse_identifier, Sequence arm: Ok(BooleanGroup(Or, V)) where V = [parse_mapping(first)?] followed by one
+    parse_mapping(entry)? per remaining entry, pushed in iteration order over the sequence's own iterator; any non-mapping => Err."""
+    m = unblock(pi.body)
+    if m.get("k") != "Match":
+        return False
+    arm = [a for a in m["arms"] if variant_of(a["pat"]) and variant_of(a["pat"])[1] == "Sequence"]
+    if len(arm) != 1:
+        return False
+    body = arm[0]["body"]
+    sid = strip_ref(subpat(arm[0]["pat"], 0)).get("id")
+    leaves = q.result_leaves(body)
+    oks = [l for l, _ in leaves if facts.adt_is(peel(l), "Result", "Ok")]
+    if len(oks) != 1 or not all(facts.adt_is(peel(l), "Result", "Err") for l, _ in leaves if l is not oks[0]):
+        return False
+    g = peel(peel(oks[0])["fields"][0]["e"])
+    if not (g.get("k") == "Adt" and g["adt"] == "parser::Expression" and g["variant"] == "BooleanGroup"):
+        return False
+    fs = {f["name"]: f["e"] for f in g["fields"]}
+    if not (peel(fs["0"]).get("k") == "Adt" and peel(fs["0"])["variant"] == "Or"):
+        return False
+    vid = q.var_id(fs["1"])
+    vinit = q.let_init(body, vid) if vid is not None else None
+    if vinit is None:
+        return False
+    # the iterator over the sequence
+    its = [s for x in walk(body) if x.get("k") == "Block" for s in x["stmts"] if s["k"] == "Let" and s.get("init") is not None and call_is(peel(s["init"]), "::iter") and q.base_var(peel(s["init"])["args"][0]) == sid]
+    if len(its) != 1:
+        return False
+    itid = strip_ref(its[0]["pat"]).get("id")
+    firsts = [x for x in walk(body) if call_is(x, "Iterator::next") and q.base_var(x["args"][0]) == itid]
+    loops = [x for x in walk(body) if x.get("k") == "For" and q.base_var(x["iter"]) == itid]
+    if len(firsts) != 1 or len(loops) != 1:
+        return False
+    pms = [x for x in walk(body) if call_is(x, "parser::parse_mapping")]
+    if len(pms) != 2:
+        return False
+    # first element: vec![parse_mapping(m)?] with m the Mapping payload of next()
+    in_init = [x for x in pms if q.contains(vinit, x)]
+    in_loop = [x for x in pms if q.contains(loops[0]["body"], x)]
+    if len(in_init) != 1 or len(in_loop) != 1:
+        return False
+    pushes = [x for x in walk(body) if call_is(x, "::push") and q.base_var(x["args"][0]) == vid]
+    if len(pushes) != 1 or not q.contains(loops[0]["body"], pushes[0]) or not any(y is in_loop[0] for y in walk(q.resolve(loops[0]["body"], pushes[0]["args"][1]) if peel(pushes[0]["args"][1]).get("k") == "Var" else pushes[0]["args"][1])):
+        return False
+    if not q.every_cycle_calls(loops[0], lambda x: x is pushes[0]):
+        return False
+
+    def mapping_payload_of(arg, src_pred):
+        """arg is bound by a Value::Mapping(..) pattern matched against something satisfying src_pred"""
+        aid = q.base_var(arg, body)
+        for pat in q.all_patterns(body):
+            for alt in or_pats(pat):
+                for pp in q._walk_pat(alt):
+                    v = variant_of(pp)
+                    if v and v[1] == "Mapping" and any(b[1] == aid for b in facts.pat_binds(pp)):
+                        return True
+        return False
+    return mapping_payload_of(in_init[0]["args"][0], None) and mapping_payload_of(in_loop[0]["args"][0], None)
+
+
 def run(rep):
     F = facts.load("A")
     rep.configs = ["A(core,json)"]
@@ -248,7 +309,9 @@ def run(rep):
             okt = show(facts.only(b0)) == "<T, A>::push(expressions, Expression::Negate(<T>::new(expression)))" and show(facts.only(b1)) == "<T, A>::push(expressions, expression)"
     rep.check(okt, "K-MOD", "K-MOD/not-negates-entry", tsite, "not(k): the whole entry is negated; otherwise it is used as is", "")
     # keys with spaces are re-joined
-    rep.check("<impl [T]>::join(Deref::deref(identifier), \" \")" in show(pm.body), "K-MOD", "K-MOD/keys-with-spaces", pm.sp, "identifier tokens split at spaces are joined back with a space", "")
+    joins = [x for x in walk(pm.body) if x.get("k") == "Adt" and x["adt"].endswith("tokeniser::Token") and x["variant"] == "Identifier"
+             and call_is(peel(x["fields"][0]["e"]), "::join") and lit(peel(x["fields"][0]["e"])["args"][1]) == ("s", " ")]
+    rep.check(len(joins) >= 1, "K-MOD", "K-MOD/keys-with-spaces", pm.sp, "identifier tokens split at spaces are joined back with a space", "%d join sites" % len(joins))
 
     # ---------------------------------------------------------------- T-CONJ
     uses = []
@@ -280,7 +343,7 @@ def run(rep):
         rep.lost("T-CONJ", "T-CONJ/parse_identifier", "parser::parse_identifier")
     else:
         s = show(pi.body)
-        rep.check("Result::Ok(Expression::BooleanGroup(BoolSym::Or, expressions))" in s and "for $value in it" in s and s.count("parser::parse_mapping(") == 3, "T-CONJ", "T-CONJ/sequence-is-or", pi.sp, "a sequence of mappings is the or-group of its entries in order", "")
+        rep.check(sequence_is_or(pi), "T-CONJ", "T-CONJ/sequence-is-or", pi.sp, "a sequence of mappings is the or-group of its entries in order", "")
         m = unblock(pi.body)
         top = [pat_str(a["pat"]) for a in m["arms"]] if m.get("k") == "Match" else []
         rep.check(top == ["&Value::Mapping($m)", "&Value::Sequence($s)", "_"], "T-CONJ", "T-CONJ/identifier-kinds", pi.sp, "an identifier is a mapping or a sequence of mappings; anything else is an error", str(top))
